@@ -1287,7 +1287,7 @@ impl BufferParser for Parser {
                         };
                         // scrolling more than a screen height leaves an empty scroll region
                         let num = min(num, buf.terminal_state.get_height());
-                        (0..num).for_each(|_| buf.scroll_up(current_layer));
+                        buf.scroll_up_by(current_layer, num);
                         return Ok(CallbackAction::Update);
                     }
                     'T' => {
@@ -1300,7 +1300,7 @@ impl BufferParser for Parser {
                         };
                         // scrolling more than a screen height leaves an empty scroll region
                         let num = min(num, buf.terminal_state.get_height());
-                        (0..num).for_each(|_| buf.scroll_down(current_layer));
+                        buf.scroll_down_by(current_layer, num);
                         return Ok(CallbackAction::Update);
                     }
                     'b' => {
